@@ -93,6 +93,8 @@ Fixpoint value_code (v : value) : bytes :=
   | VFloat t => [4] ++ WireModel.le_bytes 2 (N.of_nat (length t)) ++ t
   | VStr s => [5] ++ WireModel.le_bytes 2 (N.of_nat (length s)) ++ s
   | VList l => [6] ++ WireModel.le_bytes 2 (N.of_nat (length l)) ++ flat_map value_code l
+  | VArr l => [8] ++ WireModel.le_bytes 2 (N.of_nat (length l)) ++
+              flat_map (fun kv => WireModel.le_bytes 2 (N.of_nat (length (fst kv))) ++ fst kv ++ value_code (snd kv)) l
   | VMap l => [7] ++ WireModel.le_bytes 2 (N.of_nat (length l)) ++
               flat_map (fun kv => WireModel.le_bytes 2 (N.of_nat (length (fst kv))) ++ fst kv ++ value_code (snd kv)) l
   end.
